@@ -162,6 +162,7 @@ class Exec:
         self.depth = depth
         self.env = {}
         self.mem = mem if mem is not None else {}
+        self.extents = {}   # local array / std::vector cell -> number of elements
         self.elem = {}      # the last element store `p[e] = v` (any root, symbolic subscript): forwarded to the loads of exactly
                             # that element in the straight-line code that follows (dropped at every store, call and branch)
         self.label = label
@@ -247,6 +248,10 @@ class Exec:
             self._cont_envs = saved_ce
             self.elem = {}
             return r_
+        if k == "forrange" and self._forrange_counted(node, out):
+            return "fall"
+        if k == "switch" and self._switch_as_ifs(node, out):
+            return "fall"
         if k == "forrange":
             body = []
             self.havoc(node.get("body"))
@@ -296,6 +301,90 @@ class Exec:
         if out and out[-1].get("e") == "exit":
             return "exit"
         return "fall"
+
+    @staticmethod
+    def _clamp(hi, lo=ZERO):
+        """i < max(X, lo) written `X > lo ? X : lo`: the loop is empty whenever X <= lo, so the bound is X"""
+        if isinstance(hi, tuple) and hi and hi[0] == "cond" and hi[1][0] == "op":
+            cc, ca, cb = hi[1], hi[2], hi[3]
+            if cc[1] in (">", ">=") and ca == cc[2] and cb == cc[3] and cb == lo:
+                return ca
+            if cc[1] in ("<", "<=") and cb == cc[2] and ca == cc[3] and ca == lo:
+                return cb
+        return hi
+
+    def _forrange_counted(self, node, out):
+        """for (T &e : v) over a local std::vector<T> v(n) or a local array: the counted loop u in [0, n) with e = v[u]"""
+        rng, var = node.get("range"), node.get("var")
+        if not (isinstance(rng, dict) and rng.get("k") == "ref" and isinstance(var, dict)):
+            return False
+        cellv = self.env.get(rng.get("id"))
+        if not (isinstance(cellv, tuple) and cellv[0] == "cell") or cellv[1] not in self.extents:
+            return False
+        cell, n = cellv[1], self.extents[cellv[1]]
+        Exec.serial += 1
+        u = sym.sym("u%d@%d" % (Exec.serial, node["l"]))
+        self.dry_forget([node.get("body")])
+        self.havoc([node.get("body")])
+        if is_ref_type(var.get("t", "")):
+            self.env[var["id"]] = ("alias", sym.idx(cell, u))
+        else:
+            self.env[var["id"]] = sym.idx(cell, u)
+        b = []
+        st = self.block(node.get("body"), b)
+        eff = {"e": "loop", "var": u, "lo": ZERO, "cmp": "<", "hi": n, "step": I(1), "body": b, "l": node["l"], "name": "u", "range_for": True}
+        if st in ("return", "exit"):
+            eff["body_exits"] = True
+        out.append(eff)
+        self.forget_stores_in(b)
+        self.havoc([node.get("body")])
+        return True
+
+    def _switch_as_ifs(self, node, out):
+        """switch (c) { case L1: S..; case L2: S..; break; default: .. }  with a side-effect-free c, constant labels and `break`
+        only at the top level of the body: the chain  if (c == L1) {S from L1 up to the next break} else if (c == L2) {...} else {default}"""
+        cond, body = node.get("c"), node.get("body")
+        if cond is None or not isinstance(body, dict) or body.get("k") != "block":
+            return False
+        if assigned_ids([cond])[0] or any(n.get("k") in ("call", "mcall", "opcall") for n in walk(cond)):
+            return False
+        items = []
+
+        def flat_(n):
+            if isinstance(n, dict) and n.get("k") == "case":
+                items.append(("label", n.get("v")))
+                flat_(n.get("body"))
+            elif isinstance(n, dict) and n.get("k") == "default":
+                items.append(("label", None))
+                flat_(n.get("body"))
+            elif n is not None:
+                items.append(("stmt", n))
+        for st_ in body.get("s", []):
+            flat_(st_)
+        labels = [(k_, it[1]) for k_, it in enumerate(items) if it[0] == "label"]
+        if not labels or items[0][0] != "label":
+            return False
+        paths_ = []
+        for pos, lab in labels:
+            path = []
+            for kind, n in items[pos + 1:]:
+                if kind == "label":
+                    continue
+                if n.get("k") == "break":
+                    break
+                if any(m.get("k") in ("case", "default") for m in walk(n)) or "break" in self._own_jumps(n):
+                    return False
+                path.append(n)
+            paths_.append((lab, path))
+        l = node["l"]
+        chain = None
+        default = next((p_ for lab, p_ in paths_ if lab is None), [])
+        chain = {"k": "block", "s": default, "l": l}
+        for lab, path in reversed([x for x in paths_ if x[0] is not None]):
+            chain = {"k": "if", "l": l, "c": {"k": "bin", "op": "==", "a": cond, "b": lab, "t": "bool", "l": l},
+                     "then": {"k": "block", "s": path, "l": l}, "else": chain}
+        self.block(chain, out)
+        return True
 
     def _tracked_ref(self, e):
         return isinstance(e, dict) and e.get("k") == "ref" and e.get("rk") in ("local", "param") and \
@@ -353,8 +442,23 @@ class Exec:
             return
         cell = ("var", dv["n"], vid)
         self.env[vid] = ("cell", cell, None)
+        if strip_cv(t).startswith("std::vector<") and init is not None and init.get("k") == "construct" and \
+                1 <= len([a for a in init.get("args", []) if isinstance(a, dict) and a.get("k") != "defarg"]) <= 2:
+            # std::vector<T> v(n) / v(n, x): a local array of n elements (value-initialised or filled with x)
+            vargs = [a for a in init.get("args", []) if isinstance(a, dict) and a.get("k") != "defarg"]
+            ext = self._clamp(self.ev(vargs[0], out))
+            self.extents[cell] = ext
+            out.append({"e": "localarray", "lv": cell, "extent": ext, "t": t, "l": dv["l"], "init": True, "vector": True})
+            Exec.serial += 1
+            u = sym.sym("u%d@%d" % (Exec.serial, dv["l"]))
+            fillv = self.ev(vargs[1], out) if len(vargs) == 2 else ZERO
+            out.append({"e": "loop", "var": u, "lo": ZERO, "cmp": "<", "hi": ext, "step": I(1), "l": dv["l"], "name": "u",
+                        "body": [{"e": "store", "lv": sym.idx(cell, u), "op": "=", "val": fillv, "l": dv["l"], "t": "", "ct": ""}],
+                        "algorithm": "std::vector"})
+            return
         if "extent" in dv or "vla" in dv:
             ext = I(int(dv["extent"])) if "extent" in dv else self.ev(dv["vla"], out)
+            self.extents[cell] = ext
             out.append({"e": "localarray", "lv": cell, "extent": ext, "t": t, "l": dv["l"]})
         if init is not None:
             if init.get("k") == "construct":
@@ -1398,7 +1502,7 @@ class Exec:
             return False
         st = {"e": "store", "lv": sym.idx(dst, u), "op": "=", "val": val, "l": e["l"], "t": "", "ct": ""}
         body.append(st)
-        out.append({"e": "loop", "var": u, "lo": ZERO, "cmp": "<", "hi": count, "step": I(1), "body": body, "l": e["l"],
+        out.append({"e": "loop", "var": u, "lo": ZERO, "cmp": "<", "hi": self._clamp(count), "step": I(1), "body": body, "l": e["l"],
                     "name": "u", "algorithm": name})
         self.forget_stores_in(body)
         return True
@@ -1409,7 +1513,12 @@ class Exec:
         an = [a for a in e.get("args", []) if isinstance(a, dict)]
         if len(args) != 3 or len(an) != 3 or any(a is None for a in args):
             return False
-        ptr = lambda n_: strip_cv(n_.get("t", "")).endswith("*")
+        def ptr(n_):
+            # a raw pointer, or an iterator into a local std::vector modelled as an array
+            if strip_cv(n_.get("t", "")).endswith("*"):
+                return True
+            k_ = an.index(n_)
+            return isinstance(args[k_], tuple) and sym.ptr_split(args[k_])[0] in self.extents
         if name in ("std::fill", "std::copy"):
             if not (ptr(an[0]) and ptr(an[1])):
                 return False
@@ -1430,15 +1539,42 @@ class Exec:
             st = {"e": "store", "lv": sym.idx(first, u), "op": "=", "val": args[2], "l": e["l"], "t": "", "ct": ""}
         else:
             st = {"e": "store", "lv": sym.idx(args[2], u), "op": "=", "val": sym.idx(first, u), "l": e["l"], "t": "", "ct": ""}
-        out.append({"e": "loop", "var": u, "lo": ZERO, "cmp": "<", "hi": count, "step": I(1), "body": [st], "l": e["l"],
+        out.append({"e": "loop", "var": u, "lo": ZERO, "cmp": "<", "hi": self._clamp(count), "step": I(1), "body": [st], "l": e["l"],
                     "name": "u", "algorithm": name})
         self.forget_stores_in([st])
         return True
 
+    def _vector_method(self, name, args, this):
+        """size / begin / end / data / operator[] / empty of a local std::vector modelled as an array"""
+        if this is None or not name.startswith("std::vector<"):
+            return None
+        cell = this[1] if this[0] == "addr" else None
+        if cell is None or cell not in self.extents:
+            return None
+        m = name.rsplit("::", 1)[-1]
+        n = self.extents[cell]
+        if m == "size":
+            return n
+        if m in ("begin", "data", "cbegin"):
+            return cell
+        if m in ("end", "cend"):
+            return sym.addr(sym.idx(cell, n))
+        if m == "empty":
+            return sym.binop("==", n, ZERO)
+        if m == "operator[]" and args and args[0] is not None:
+            return sym.idx(cell, args[0])
+        return None
+
     def emit_call(self, e, name, args, out, this=None, array=None):
         self.elem = {}
+        vm = self._vector_method(name, args, this)
+        if vm is not None:
+            return vm
         if e.get("k") == "construct" and len(args) == 1 and isinstance(args[0], tuple) and args[0] and args[0][0] == "lambda":
             return args[0]            # copy of a closure object
+        if e.get("k") == "construct" and len(args) == 1 and "__normal_iterator<" in name and isinstance(args[0], tuple) and \
+                sym.ptr_split(args[0])[0] in self.extents:
+            return args[0]            # an iterator into a local vector is the element pointer
         usr = e.get("cusr")
         line = e["l"]
         # std::string temporaries built from literals: the value is the literal
